@@ -15,7 +15,7 @@ from oracle import balls, geom
 
 RULE = ("Generated: convex polygons and polyhedra that are tangential, cyclic, both or neither by construction (tangent polytopes of "
         "a ball via polar duals, points on a sphere/circle, rectangles, kites, boxes, prisms, pyramids, tabulated solids, random "
-        "hulls), non-convex polygons and meshes for the vertex-based balls, curved shapes; rigid placement; scales 1, 1e-3, 1e3. "
+        "hulls), non-convex polygons and meshes for the vertex-based balls, curved shapes; rigid placement; scales 1, 1e-3, 1e3, 1e-6, 1e6, 1e-8. "
         "Oracle (validity predicates): exact smallest enclosing ball by brute force over support sets; centred balls from the exact "
         "centroid and facet/edge distances; circum-ball: all vertex distances equal; in-ball: distance to every facet plane/edge line "
         "equal and centre inside; existence ground truth from a harness least-squares fit: must return a ball when the fit misses by "
@@ -31,7 +31,7 @@ def _poly2_case(draw):
     kind = draw(st.sampled_from(["tangential", "cyclic", "regular", "rectangle", "kite", "triangle", "convex", "nonconvex"]))
     n = draw(st.integers(3, 14))
     return {"kind": kind, "n": n, "noise": draw(noise(2 * n + 4)), "emb": draw(gp.embedding()), "poly": draw(gp.simple_polygon(max_n=12, kinds=("star", "comb", "untangled"))),
-            "logs": draw(st.sampled_from([0.0, 0.0, -3.0, 3.0]))}
+            "logs": draw(st.sampled_from([0.0, 0.0, 0.0, -3.0, 3.0, -6.0, 6.0, -8.0]))}
 
 
 def build_poly2(case):
@@ -71,7 +71,7 @@ def _poly3_case(draw):
     n = draw(st.integers(4, 14))
     return {"kind": kind, "n": n, "noise": draw(noise(2 * n)), "cvx": draw(zoo.convex3d(max_n=14, kinds=("prismatoid", "ellipsoid", "lattice"))),
             "tab": draw(zoo.convex3d(kinds=("tabulated",))), "mesh": draw(zoo.mesh3d(max_n=10, kinds=("voxel", "star"))),
-            "place": draw(zoo.placement(max_offset=3.0)), "logs": draw(st.sampled_from([0.0, 0.0, -3.0, 3.0]))}
+            "place": draw(zoo.placement(max_offset=3.0)), "logs": draw(st.sampled_from([0.0, 0.0, 0.0, -3.0, 3.0, -6.0, 6.0, -8.0]))}
 
 
 def sphere_points(n, nz):
